@@ -1292,8 +1292,20 @@ impl RaftLogManager {
         }
         if pop_count > 0 {
             let log_count = self.logs.len() - pop_count;
+            //the files behind the cut are gone: close them and remove them from disk, otherwise their records come
+            //back after a restart (and a later file switch would reuse their ids and find the old content)
+            for item in &self.logs[log_count..] {
+                if let Some(log_actor) = &item.log_actor {
+                    log_actor.do_send(RaftLogCmd::Close);
+                }
+                let path = Self::get_log_path(&self.base_path, &item.log_range);
+                std::fs::remove_file(path).ok();
+            }
             self.logs = self.logs[..log_count].to_vec();
             if let Some(last_log) = self.logs.last_mut() {
+                //the file that holds the cut is the open file again
+                last_log.log_range.is_close = false;
+                last_log.log_range.record_count = 0;
                 let log_actor = if let Some(log_actor) = &last_log.log_actor {
                     log_actor.clone()
                 } else {
@@ -1303,6 +1315,11 @@ impl RaftLogManager {
                     log_actor_addr
                 };
                 self.current_log_actor = Some(log_actor);
+            }
+            let save_logs = self.logs.iter().map(|e| e.log_range.clone()).collect();
+            let index_request = RaftIndexRequest::SaveLogs(save_logs);
+            if let Some(index_manager) = self.index_manager.as_ref() {
+                index_manager.do_send(index_request);
             }
         }
         if let Some(tx) = tx {
